@@ -403,14 +403,22 @@ def calls_in(node: ast.AST):
 
 
 def names_in(node: ast.AST):
+    """Names and maximal dotted attribute chains read or written in `node` (the base name of a chain is not
+    reported separately: `self.x` yields 'self.x', not 'self')."""
     out = set()
-    for n in ast.walk(node):
+
+    def rec(n):
+        if isinstance(n, ast.Attribute):
+            d = dotted(n)
+            if d and not d.startswith("super()"):
+                out.add(d)
+                return
         if isinstance(n, ast.Name):
             out.add(n.id)
-        elif isinstance(n, ast.Attribute):
-            d = dotted(n)
-            if d:
-                out.add(d)
+            return
+        for c in ast.iter_child_nodes(n):
+            rec(c)
+    rec(node)
     return out
 
 
